@@ -17,7 +17,7 @@ META = {
     "level": "proof",
     "technique": "Coq proof of the determinism idioms (sort-after-combine, EdgePos order, ReorderHalfedges, heap with serials, unique slots) "
                  "+ source translator checking every combine/atomic/concurrent site + hash exploration across seq/par/sim builds, arenas and seeds",
-    "text": "Proved for all inputs and all schedules (Properties_C04.v, 21 theorems, no axioms): any stable sort of any combinable outcome (arbitrary "
+    "text": "Proved for all inputs and all schedules (Properties_C04.v, 24 theorems, no axioms): any stable sort of any combinable outcome (arbitrary "
             "leaf->worker assignment, leaf order, combine_each order) is one list when the comparator separates the records (Intersect12_: no hypothesis, "
             "payload is a function of (edge,face)); necessity of that hypothesis by a refuted example; EdgePos::operator< strict total order given distinct "
             "collisionIds and canonical buckets for locked runs; ReorderHalfedges erases per-triangle slot rotation (unique-minimum hypothesis, shown necessary); "
@@ -25,8 +25,11 @@ META = {
             "tbb::combinable/combine_each, AtomicAdd, concurrent container, mutex append and task_group (about 40 sites) and fails all_combines_normalised when a "
             "site has no recognised normalisation. The END-TO-END claim is explored, not proved: byte hashes of all MeshGL64 fields / ToPolygons / Triangulate "
             "of threshold-straddling programs must agree between seq, par (1,2,3,5,8,16 threads x reps) and sim (64/2000 seeds) builds.",
-    "note": "Named gaps: (1) AppendWholeEdges slot order -> Face2Tri start: only the 3-edge face case is proved, triangulation's independence from slot order "
-            "is NOT proved; (2) Winding03_ component representative depends on union-find roots; (3) whole-program determinism is exploration only. "
+    "note": "Gaps, each split into a proved part and a dynamically tied hypothesis: (1) AppendWholeEdges slot order -> Face2Tri: AssembleHalfedges (ported) is proved "
+            "slot-order independent for faces with distinct startVerts (it starts at the smallest startVert); remaining hypothesis = triangulator equivariant under idx relabelling "
+            "(harness c04_tri; rotations/contour order do change triangulations, so the canonical start is load bearing); pinched faces leak (refuted example). "
+            "(2) Winding03_: component map and w03 proved interleaving independent given 'winding constant per component' (harness c04_wind checks it at every vertex). "
+            "(3) whole-program determinism is exploration only. "
             "Trusted: Coq kernel, the translator's regex rules, g++/TBB, FNV hash of the exported arrays. Findings made by this check: Hull (quickhull slot "
             "cursor; fixed 5855daa0), CalculateCurvature (atomic floating-point sums; fixed 2d2f6599), LevelSet (vertex/triangle cursors; known finding "
             "levelset-cursor-order, still schedule dependent).",
@@ -70,6 +73,8 @@ PROGRAMS = [
     ("farbox400", "farbox", 400, 50000, 0, "t", False, "same with 80k tris"),
     ("cscloud", "cscloud", 6000, 30, 0, "q", False, "6000 tiny squares at 30 sites: CrossSection union, Offset, Extrude (2-D sort ties)"),
     ("tricloud", "tricloud", 6000, 30, 0, "q", False, "Triangulate 6000 tiny squares at 30 sites"),
+    ("pinch", "pinch", 100, 0, 0, "q", True, "two pockets touching along an edge cut into a block (self-touching face boundaries), P > 1e4 halfedges so face slots are handed out in parallel"),
+    ("pinchr", "pinch", 100, 45, 0, "q", True, "same, second operand rotated 45 degrees"),
     ("dedupe", "dedupe", 100, 0, 0, "q", True, "MeshGL import with a 4-manifold edge, 15k halfedges > 1e4: DedupeEdges/SplitPinchedVerts par paths"),
     ("dedupe_s", "dedupe", 32, 0, 0, "q", True, "same below 1e4"),
     ("simplify", "simplify", 100, 23, 0.02, "q", False, "Simplify of a Boolean"),
@@ -123,9 +128,9 @@ def run_config(exe, args, lines, timeout):
 def run(cx):
     cx.assumptions += [
         "PROVED: normalisation layer only (Properties_C04.v); the stable sort is specified (sorted + equivalent elements keep their order), so the theorems cover std::stable_sort and parallel.h's merge/radix sort provided those meet the specification (C13)",
-        "NAMED GAP 1 (not proved): AppendWholeEdges slot order -> Face2Tri start; triangulation's independence from the start slot is NOT proved (only the 3-edge face case is: face2tri_single_triangle_slot_order_partial + reorder_halfedges_canonical)",
+        "NAMED GAP 1 (AppendWholeEdges slot order -> Face2Tri): PROVED that AssembleHalfedges (ported) yields the same contours (contents, order, rotation) for every slot order when the face's startVerts are distinct (it starts from the smallest startVert, not the first slot); NOT proved, tied dynamically (harness c04_tri): TriangulateIdxHalfedges is equivariant under relabelling PolyVert::idx; pinched faces (a startVert twice in one face) do leak slot order (refuted example) and are covered only by exploration",
         "parallel_merge_sort_meets_stable_spec imports C13's model of parallel.h's merge sort (Par/ParDefs.merge_sort, Par/SortModel.v); its tie to the source is C13's correspondence plus the StableMergeBounds row of the generated table (token-level check of the two bound calls in mergeRec)",
-        "NAMED GAP 2 (not proved): Winding03_ chooses a component representative through concurrent union-find roots (schedule dependent); equal output needs the winding number to be constant per component",
+        "NAMED GAP 2 (Winding03_): PROVED on top of C13's uf_partition that the vertex->component map is interleaving independent and the w03 array too IF the kernel's winding is constant on each component; that hypothesis is geometric, NOT proved, tied dynamically (harness c04_wind evaluates Kernel02 at every vertex of every component and compares with Boolean3's arrays)",
         "hypotheses visible in the theorems: comparator separates the records (shown necessary by sort_after_combine_without_injective_key_refuted); distinct collisionIds / locked runs; unique smallest startVert per triangle (shown necessary); distinct serials",
         "edgePos / NumVert are integers in the model (finite non-NaN doubles embed order-isomorphically)",
         "EXPLORED, not proved: whole-program bit-identity; coverage is the program list in coverage.exploration",
@@ -283,3 +288,39 @@ def run(cx):
         cx.sample({"program": prog_line(pmap[pid]), "differs_in": diffs[pid][4], "config": diffs[pid][0]})
     cx.sample({"program": prog_line(pmap["sc260"]), "hash_all_configs": sorted(per_prog["sc260"]["distinct_hashes"])})
     cx.sample({"site_table_head": rows[:3]})
+
+    gap_ties(cx)
+
+
+def gap_ties(cx):
+    """Dynamic ties for the hypotheses the gap theorems leave open."""
+    # gap 1: the triangulator must be equivariant under a relabelling of PolyVert::idx
+    exe = vp.build_harness("c04_tri", "seq", link_lib=True)
+    ncase = cx.pick(600, 6000)
+    rc, out, err = vp.sh2([exe, str(cx.seed), str(ncase)], timeout=cx.pick(120, 900))
+    rows = [l for l in out.splitlines() if l.startswith("T ")]
+    bad = [l for l in rows if "relabel=ok" not in l]
+    if rc != 0 or len(rows) != ncase:
+        cx.broke("tie:C04/triangulator-harness", "c04_tri exited %s after %d/%d cases: %s" % (rc, len(rows), ncase, (err or "")[-200:]))
+    cx.obligation("tie:C04/triangulator-idx-relabel-equivariant", not bad and len(rows) == ncase,
+                  "TriangulateIdxHalfedges output changes when only the idx labels of the same polygons are permuted (slot numbers are schedule dependent): " + "; ".join(bad[:3]))
+    stat = lambda k: sum(1 for l in rows if (" %s=0" % k) in l)
+    cx.cov["gap1_triangulator"] = {
+        "cases": len(rows), "relabel_equivariant": len(rows) - len(bad),
+        "rotation_changes_triangle_sequence": stat("rot_seq"), "rotation_changes_triangle_set": stat("rot_set"),
+        "contour_order_changes_triangle_sequence": stat("ord_seq"), "contour_order_changes_triangle_set": stat("ord_set"),
+        "reading": "rotation / contour order DO change the triangulation on inputs with ties, so AssembleHalfedges' canonical start (smallest startVert, "
+                   "proved slot independent for faces with distinct startVerts) is load bearing; relabelling idx alone never changed the output"}
+    # gap 2: winding constant on every component, evaluated at every vertex with the library's Kernel02
+    exe = vp.build_harness("c04_wind", "seq", link_lib=True)
+    ncase = cx.pick(600, 12000)
+    rc, out, err = vp.sh2([exe, str(cx.seed), str(ncase)], timeout=cx.pick(120, 900))
+    rows = [l for l in out.splitlines() if l.startswith("W ")]
+    bad = [l for l in rows if "nonconst=0 mismatch=0" not in l]
+    if rc != 0 or len(rows) != ncase:
+        cx.broke("tie:C04/winding-harness", "c04_wind exited %s after %d/%d cases: %s" % (rc, len(rows), ncase, (err or "")[-200:]))
+    cx.obligation("tie:C04/winding-constant-per-component", not bad and len(rows) == ncase,
+                  "Kernel02's winding is not the same at every vertex of a component (so the result depends on which union-find root a schedule ends with), or differs from Boolean3's w03_/w30_: " + "; ".join(bad[:3]))
+    comps = sum(int(re.search(r"compsP=(\d+)", l).group(1)) + int(re.search(r"compsQ=(\d+)", l).group(1)) for l in rows)
+    cx.cov["gap2_winding"] = {"boolean_pairs": len(rows), "components_checked_at_every_vertex": comps, "violations": len(bad)}
+    cx.cov["evaluations"] = cx.cov.get("evaluations", 0) + len(rows) + cx.cov["gap1_triangulator"]["cases"]
